@@ -137,10 +137,11 @@ def coq_opt(o):
     return "None" if o is None else "(Some %d)" % o
 
 
-def coq_lay(l):
+def coq_lay(l, explicit=False):
+    e = "true" if explicit else "false"
     if l is None:
-        return "(Lay 0 0 [])"
-    return "(Lay %d %d [%s])" % (l["size"], l["align"], ";".join(str(o) for o in l["offs"]))
+        return "(Lay 0 0 [] %s)" % e
+    return "(Lay %d %d [%s] %s)" % (l["size"], l["align"], ";".join(str(o) for o in l["offs"]), e)
 
 
 def coq_fdef(f):
@@ -177,7 +178,7 @@ def coq_ty(t):
         w = t.get("repr_bytes")
         voffs = t.get("voffs") or [[] for _ in t["variants"]]
         vs = ["(VD %d %s [%s])" % (v.get("from", 0), coq_opt(v.get("to")), ";".join(coq_fdef(f) for f in v["fields"])) for v in t["variants"]]
-        return "(TEnum %s %s [%s] [%s])" % (coq_opt(w), coq_lay(t.get("lay")),
+        return "(TEnum %s %s [%s] [%s])" % (coq_opt(w), coq_lay(t.get("lay"), any(v.get("discr") is not None for v in t["variants"])),
                                             ";".join("[" + ";".join(str(o) for o in vo) + "]" for vo in voffs), ";".join(vs))
     raise ValueError(k)
 
@@ -416,8 +417,14 @@ class Gen:
         repr_ = rng.choice([None, None, "u8", "u8", "u16", "u32", "i8"]) if not packed_bias else rng.choice(["u8", "u8", "u16", "u32", "i16", None])
         reprc = repr_ is not None and rng.random() < 0.3
         variants = []
+        # an enum with an explicit repr never mixes field-less and data-carrying variants in the random stream:
+        # that class is known finding K13 (witness FixEMixed8 in the fixed corpus)
+        allunit = repr_ is not None and rng.random() < 0.4
         for i in range(nv):
-            nf = rng.choice([0, 0, 1, 2, 3]) if not packed_bias else rng.choice([0, 1, 1, 2])
+            if repr_ is not None:
+                nf = 0 if allunit else rng.choice([1, 1, 2])
+            else:
+                nf = rng.choice([0, 0, 1, 2, 3]) if not packed_bias else rng.choice([0, 1, 1, 2])
             fields = []
             for j in range(nf):
                 ft = self.gen_ty(depth, packed_bias)
